@@ -707,17 +707,8 @@ pub fn run(scn: &Scn, ctx: &Ctx, scratch: &Path) {
                         }
                     }
                 }
-                FaultKind::MutPayload { pkt, back, xor } => {
-                    // the next object packet with a payload at or after the index
-                    if let Some(e) = (0..n).map(|k| &sess.trace.pkts[(*pkt + k) % n]).find(|e| e.dec.toi != 0 && !e.dec.payload.is_empty()) {
-                        let mut b = e.bytes.clone();
-                        let pos = b.len() - 1 - (*back % e.dec.payload.len());
-                        b[pos] ^= *xor | 1;
-                        p.push(&b, true);
-                        ctx.borrow_mut().count_fault("mutate-payload-only");
-                        fired += 1;
-                    }
-                }
+                // (delivered IN PLACE of the packet, see below)
+                FaultKind::MutPayload { .. } => {}
                 FaultKind::Truncate { pkt, len } => {
                     let e = &sess.trace.pkts[*pkt % n];
                     let l = (*len).min(e.bytes.len().saturating_sub(1));
@@ -882,9 +873,33 @@ pub fn run(scn: &Scn, ctx: &Ctx, scratch: &Path) {
             }
         }
         if at < n {
-            p.what = format!("valid packet {}", at);
-            let b = sess.trace.pkts[at].bytes.clone();
-            p.push(&b, false);
+            let e = &sess.trace.pkts[at];
+            // a payload-only corruption replaces the packet it alters (damaged in transit): the first object packet with
+            // a payload at or after the fault's index
+            let hit = scn.faults.iter().find_map(|f| match &f.kind {
+                FaultKind::MutPayload { pkt, back, xor } => {
+                    let target = (0..n).map(|k| (*pkt + k) % n).find(|i| sess.trace.pkts[*i].dec.toi != 0 && !sess.trace.pkts[*i].dec.payload.is_empty());
+                    if target == Some(at) {
+                        Some((*back, *xor))
+                    } else {
+                        None
+                    }
+                }
+                _ => None,
+            });
+            if let Some((back, xor)) = hit {
+                let mut b = e.bytes.clone();
+                let pos = b.len() - 1 - (back % e.dec.payload.len());
+                b[pos] ^= xor | 1;
+                p.what = format!("packet {} with an altered payload byte", at);
+                p.push(&b, true);
+                ctx.borrow_mut().count_fault("mutate-payload-only");
+                fired += 1;
+            } else {
+                p.what = format!("valid packet {}", at);
+                let b = e.bytes.clone();
+                p.push(&b, false);
+            }
         }
     }
     if fired > 0 {
